@@ -194,6 +194,18 @@ def eval_case(case):
                 t[3], None, t[5])
     exp_keys = collections.Counter(norm(e) for e in expected)
     act_keys = collections.Counter(norm(a) for a in act)
+    # the same dict object read a second time (a notebook cell run again):
+    # reading a specification must not change what it requests
+    if case.get('reread', True):
+        batch2 = read_input_dict(spec_copy, out, verbose=False)
+        act2 = collections.Counter()
+        for sim in batch2._simulations:
+            act2[norm(actual_tuple(sim, set()))] += 1
+        if act2 != act_keys:
+            fail('second_read_of_same_dict_identical',
+                 f'{len(sims)} simulations on the first read_input_dict of a dict, '
+                 f'{len(batch2._simulations)} on the second; '
+                 f'lost {list((act_keys - act2).elements())[:2]}, gained {list((act2 - act_keys).elements())[:2]}')
     if exp_keys != act_keys:
         missing = list((exp_keys - act_keys).elements())[:3]
         extra = list((act_keys - exp_keys).elements())[:3]
@@ -337,7 +349,8 @@ def ranges_block(draw):
     code_sets = [draw(code_param_set(cls, pos_c)) for _ in range(nc)]
     noise_sets = [draw(noise_param_set(cls, pos_e)) for _ in range(ne)]
     dec, nd = draw(decoder_block(cls, False))
-    rates = draw(st.lists(st.sampled_from([0.01, 0.05, 0.1, 0.15, 0.2, 0.3, 0.5]),
+    # incl. the noiseless point alone or with others (0 as float and as int)
+    rates = draw(st.lists(st.sampled_from([0.01, 0.05, 0.1, 0.15, 0.2, 0.3, 0.5, 0.0, 0, 1, 1.0]),
                           min_size=1, max_size=5))
     block = {'code': {'name': cls, 'parameters': code_sets},
              'error_model': {'name': 'PauliErrorModel', 'parameters': noise_sets},
@@ -356,7 +369,7 @@ def run_block(draw):
     return {'label': 'single', 'code': {'name': cls, 'parameters': draw(code_param_set(cls, False))},
             'error_model': {'name': 'PauliErrorModel',
                             'parameters': draw(noise_param_set(cls, False))},
-            'decoder': dec, 'error_rate': draw(st.sampled_from([0.05, 0.1, 0.3]))}
+            'decoder': dec, 'error_rate': draw(st.sampled_from([0.05, 0.1, 0.3, 0.0, 0, 1.0]))}
 
 
 @st.composite
